@@ -47,6 +47,12 @@ CHECKS = {
  "C17": dict(cat="model_checking", eng="e1m", tech="exhaustive enumeration of value alphabets x object kinds x directory positions x versions on the real code, with independent FILETIME arithmetic and reopen",
    text="Every setter x every value (19 CLSIDs, 37 state words, 130-3300 instants around the Unix epoch, 1601, the FILETIME saturation point, far future and pre-1601 with sub-100ns offsets on both sides) x object kind (root, storage, stream) x directory position (first, second, third directory sector) x version, plus all ordered pairs of setter kinds on one object, setters on missing paths, CLSID on streams, and touch; values are read back through entry and listings, after reopening in both modes and by the independent parser from the raw bytes; time setters must leave stream entries byte-identical; a new storage's times must lie inside the clock window.",
    note="Expected FILETIMEs are computed in i128 in the harness. Values outside the alphabets are not covered.", ref="4 E1m"),
+ "C04": dict(cat="model_checking", eng="e2", tech="exhaustive enumeration of physical layouts of small logical contents produced by an independent writer; view compared with the encoded content; then bounded mutation under the E1 oracles",
+   text="Eight logical contents x both versions; for each, every layout dimension is enumerated completely with the others canonical (thorough: crossed): all sector permutations (up to 6-7 logical sectors; rotations, swaps and reversal beyond), interior and trailing free sectors filled with garbage, all mini-sector permutations with gaps, all injective directory-slot maps over two directory sectors with blank gaps, all sibling-tree shapes x all colourings without adjacent reds (fully valid red-black trees must open strictly), surplus FAT sectors giving 0/1/2 DIFAT sectors. Every file is certified by the independent checker first. Oracle: strict and permissive open succeed and expose exactly the encoded content, lookups work under every case variant; then every one-op (thorough: two-op) mutation is applied under the full C01-C03 oracles.",
+   note="Trusted: independent writer synth.rs (triangulated against the independent checker and the library's strict reader). Contents have at most 4 children per storage and 2-3 levels.", ref="4 E2"),
+ "C16": dict(cat="model_checking", eng="e2", tech="exhaustive injection of every documented deviation at every applicable place, singly and in pairs, into independently written files; strict/permissive verdicts and views compared",
+   text="For each base file (8 contents x canonical / permuted / DIFAT-sector layouts x versions) every documented deviation is injected at every applicable place: zero-padded FAT and DIFAT tails, each FAT/DIFAT sector marker with each wrong value, DIFAT chain ended by FREESECT, every red-red edge, every unterminated name, wrong root names, CLSID / times on every stream, start sector / size on every storage, each header count (+1, -1, 0, large), non-zero V3 directory count, over-long MiniFAT; singly and in all pairs of different kinds. Permissive must accept with the undamaged content, strict must reject; when strict accepts, permissive must accept with the same view (this clause is also checked on every input of the C05 corruption sweep).",
+   note="One known finding (KNOWN_FINDINGS.txt): zero-padded DIFAT tail combined with a too-large header FAT-sector count is rejected by permissive open. Triples of deviations are not explored.", ref="4 E2"),
 }
 
 NOT_YET = {
@@ -81,6 +87,7 @@ def main():
             "add_only": True,
         },
         "engines": [
+            {"name": "e2", "path": "/verif/harness/src/e2.rs", "serves_properties": ["C04", "C16"], "kind_free_text": "layout and deviation enumeration over files from the independent writer (synth.rs)"},
             {"name": "e1n", "path": "/verif/harness/src/e1n.rs", "serves_properties": ["C09"], "kind_free_text": "name / path alphabet enumeration on the E1 step executor"},
             {"name": "e1m", "path": "/verif/harness/src/checks.rs", "serves_properties": ["C17"], "kind_free_text": "metadata value alphabet enumeration on the E1 step executor"},
             {"name": "e1h", "path": "/verif/harness/src/e1h.rs", "serves_properties": ["C07"], "kind_free_text": "handle/structure interleaving enumeration from all reachable directory shapes"},
